@@ -153,6 +153,9 @@ BASES = [
         '1040.number_1099-div': '1', '1099-div:0.payer': 'Fund', '1099-div:0.box_1a': '9000', '1099-div:0.box_1b': '9000',
         '1099-div:0.box_2a': '1000', '1099-div:0.box_5': '600',
     }),
+    Base('B10-two-w2-requested', ['w-2:0', 'w-2:1'], {
+        'w-2:0.box_1': '41000', 'w-2:0.box_2': '4000', 'w-2:1.box_1': '12000.25', 'w-2:1.box_2': '900', 'w-2:1.belongs_to': 'spouse',
+    }),
     Base('B7-dense', ['1040'], {
         '1040.number_w-2': '2', 'w-2:1.belongs_to': 'spouse', '1040.filing_status': 'MarriedFilingJointly',
         '1040.number_1099-int': '1', '1040.number_1099-div': '1', '1040.number_1099-g': '1', '1040.number_1098': '1',
